@@ -157,6 +157,8 @@ def compare(got, spec, axioms=(), pc=None):
         r = P.decision_equal(g2, s2)
         if r is True:
             return R.PROVED, 'ring-equal to the definition under every valuation of the comparison atoms'
+        if r:
+            return R.REFUTED, 'decision differs from the definition whenever %s: got %s ; definition %s' % (r[1], P.show_poly(r[2], limit=5), P.show_poly(r[3], limit=5))
     if O.in_fragment(got) and O.in_fragment(spec):
         r = O.equivalent(got, spec)
         if r is True:
